@@ -4,6 +4,31 @@ ASM = 'flipjump/assembler/assembler.py'
 FUNCS = 'flipjump/utils/functions.py'
 BRK = 'flipjump/interpreter/debugging/breakpoints.py'
 MUTANTS = [
+    M('C16', 'wflip label takes the cursor of the wflip area, not the address of the spot (seed C16_8)', ASM,
+      """                    wflip_spot = self.get_wflip_spot()
+                    self._insert_wflip_label(wflip_spot.address)
+""", """                    self._insert_wflip_label(self.next_wflip_address)
+                    wflip_spot = self.get_wflip_spot()
+""", 'C16.WFLIP-LABEL'),
+    M('C16', 'EQ wflip label address and spot list read through locals', ASM,
+      """                    wflip_spot = self.get_wflip_spot()
+                    self._insert_wflip_label(wflip_spot.address)
+
+                    ops_list[last_address_index] = wflip_spot.address
+                    return_dict[flips_key] = wflip_spot.address
+
+                    wflip_spot.list[wflip_spot.index] = flip_addresses.pop()
+""", """                    spot = self.get_wflip_spot()
+                    spot_address = spot.address
+                    spot_words = spot.list
+
+                    ops_list[last_address_index] = spot_address
+                    return_dict[flips_key] = spot_address
+
+                    spot_words[spot.index] = flip_addresses.pop()
+                    self._insert_wflip_label(spot_address)
+                    wflip_spot = spot
+""", None),
     M('C16', 'label file saved before the labels are resolved', ASM,
       "        with PrintTimer('  labels resolve:  ', print_time=print_time):\n            labels_resolve(ops, labels, memory_width, fjm_writer)\n",
       "        save_debugging_labels(debugging_file_path, labels)\n        with PrintTimer('  labels resolve:  ', print_time=print_time):\n            labels_resolve(ops, labels, memory_width, fjm_writer)\n", 'C16.SAME-TABLE'),
